@@ -15,7 +15,7 @@ func c14Layouts(thorough bool) []gen.Layout {
 	pads := []string{"", " ", "   ", "\t", "GLUE"}
 	nls := []string{"\n", "\r\n", "\r"}
 	blanks := []int{0, 2}
-	anns := []string{"inline", "multi", "multi-broken"}
+	anns := []string{"inline", "multi", "multi-broken", "multi-broken-colon"}
 	quotes := []int{0, 1, 2} // bare, quoted, quoted with an escaped letter
 	comments := []string{"", "eol", "own-line", "block", "eol-bare", "own-line-bare"}
 	var out []gen.Layout
@@ -163,7 +163,7 @@ func init() {
 	Register(&Prop{
 		ID:        "C14",
 		Technique: "bounded exhaustive enumeration of schema models x layout combinations; differential comparison of every observable against the canonical rendering of the same model",
-		Rule:      "every model of the annotated-model family (<=2 levels, <=2 children, every node kind, ordered rule selections, notes) rendered under every layout differing from the canonical one in <=2 (thorough: all 1619) of the dimensions padding{none,1,3,tab,glued} x newline{LF,CRLF,CR} x blank lines x annotation style{//,/* */,/* */ broken} x rule-name quoting{bare,quoted,quoted with an escaped letter} x user comments{none,# eol,# own line,### block,bare # eol,bare # own line}; non-trivial = renderings of accepted models",
+		Rule:      "every model of the annotated-model family (<=2 levels, <=2 children, every node kind, ordered rule selections, notes) rendered under every layout differing from the canonical one in <=2 (thorough: all 2159) of the dimensions padding{none,1,3,tab,glued} x newline{LF,CRLF,CR} x blank lines x annotation style{//,/* */,/* */ broken after { and commas,/* */ broken around the colons} x rule-name quoting{bare,quoted,quoted with an escaped letter} x user comments{none,# eol,# own line,### block,bare # eol,bare # own line}; non-trivial = renderings of accepted models",
 		Bounds: func(tier string) map[string]any {
 			return map[string]any{"layouts": len(c14Layouts(tier == "thorough")), "family_level": map[string]int{"quick": 2, "thorough": 3}[tier]}
 		},
